@@ -4,12 +4,13 @@ package gen
 import (
 	"encoding/binary"
 	"math/rand"
+	"sort"
 	"strings"
 )
 
 // Shapes lists every data shape known to the generator.
 var Shapes = []string{"random", "text", "utf8", "utf8wide", "dna", "dnalines", "exe", "wav", "bmp",
-	"runs", "smallalpha", "skew", "zeros", "gzipmagic", "mixed", "ramp", "numeric", "html", "sparse", "x86", "hex", "nibbles", "alpha15", "alpha17", "base64", "dnarep", "bmptile", "crlfsplit", "tailrandom"}
+	"runs", "smallalpha", "skew", "zeros", "gzipmagic", "mixed", "ramp", "numeric", "html", "sparse", "x86", "hex", "nibbles", "alpha15", "alpha17", "base64", "dnarep", "bmptile", "crlfsplit", "tailrandom", "utf8cjk", "utf8dmg"}
 
 var words = strings.Fields(`the of and to in is that it was for on are as with his they be at one have this from
 or had by hot word but what some we can out other were all there when up use your how said an each she which do
@@ -95,6 +96,78 @@ func Make(shape string, seed int64, n int) []byte {
 				b = append(b, string(rune(0x4E00+r.Intn(0x5000)))...)
 			}
 		}
+	case "utf8cjk", "utf8dmg":
+		// text in 3-byte code points (Hangul, kana, CJK) over a limited vocabulary, with ASCII spaces and punctuation;
+		// utf8dmg: the same with sparse byte-level damage (a continuation byte replaced by ASCII, a truncated sequence, a stray
+		// continuation byte, an invalid lead byte): almost valid UTF-8, which detection heuristics may still classify as UTF-8
+		vocab := make([]rune, 300)
+		for i := range vocab {
+			switch i % 3 {
+			case 0:
+				vocab[i] = rune(0xAC00 + r.Intn(0x2BA3)) // Hangul syllables: EA..ED lead bytes
+			case 1:
+				vocab[i] = rune(0x3040 + r.Intn(0xC0))
+			default:
+				vocab[i] = rune(0x4E00 + r.Intn(0x5000))
+			}
+		}
+		for len(b) < n {
+			wl := 1 + r.Intn(6)
+			for k := 0; k < wl; k++ {
+				b = append(b, string(vocab[r.Intn(len(vocab))])...)
+			}
+			if r.Intn(9) == 0 {
+				b = append(b, ". "...)
+			} else {
+				b = append(b, ' ')
+			}
+			if r.Intn(40) == 0 {
+				b = append(b, '\n')
+			}
+		}
+		b = b[:n]
+		if shape == "utf8dmg" {
+			// one kind of damage, applied to sequences starting with one lead byte (both chosen by the seed, so that consecutive
+			// seeds enumerate the combinations): a validity rule that is wrong for one lead byte is not masked by another damage
+			// that is detected correctly
+			var leads []byte
+			seen := map[byte]bool{}
+			for _, c := range b {
+				if c&0xF0 == 0xE0 && !seen[c] {
+					seen[c] = true
+					leads = append(leads, c)
+				}
+			}
+			if len(leads) == 0 {
+				return b
+			}
+			sort.Slice(leads, func(i, j int) bool { return leads[i] < leads[j] })
+			us := uint64(seed)
+			kind := int(us % 5)
+			lead := leads[int(us/5)%len(leads)]
+			hits := 1 + int(us/5/uint64(len(leads)))%3
+			for q := 100 + r.Intn(n/2+1); q+4 < len(b) && hits > 0; q++ {
+				if b[q] != lead {
+					continue
+				}
+				hits--
+				switch kind {
+				case 0:
+					b[q+1] = byte('A' + r.Intn(26))
+				case 1:
+					b[q+2] = byte('a' + r.Intn(26))
+				case 2:
+					copy(b[q+2:], b[q+3:])
+					b[len(b)-1] = ' '
+				case 3:
+					b[q+1] = 0xC0 | (b[q+1] & 0x3F) // a second lead byte where a continuation byte is expected
+				default:
+					b[q+1], b[q+2] = b[q+2], ' ' // continuation byte missing at the end of the sequence
+				}
+				q += 3 + r.Intn(2000)
+			}
+		}
+		return b
 	case "dna":
 		for len(b) < n {
 			b = append(b, "ACGT"[r.Intn(4)])
